@@ -12,7 +12,7 @@ COMMON_NOTE = ("Trusted: Coq kernel (coqc; coqchk in the thorough tier), no axio
 
 P = {
  "C01": ("Coq model of the whole DSL pipeline (pre-pass, lexer, recursive-descent parser, listener, printer; Model/Lexer.v, Parser.v, Listener.v, Printer.v, Transform.v) "
-         "with theorems in Properties/C01.v (every parsed model is expressible and always renders, by either API path; at parse-tree level the text printed for a parsed relation is the canonical rendering of a grammatical definition with the SAME denotation — the parser's output is already in the printer's normal form); the model's three-round composition (Transform.roundtrip) is run against the implementation's on every document, through the JSON string API and in memory, "
+         "with theorems in Properties/C01.v (every accepted document renders — from the text, no hypothesis left; every parsed model is expressible and always renders, by either API path; at parse-tree level the text printed for a parsed relation is the canonical rendering of a grammatical definition with the SAME denotation — the parser's output is already in the printer's normal form); the model's three-round composition (Transform.roundtrip) is run against the implementation's on every document, through the JSON string API and in memory, "
          "and the property itself (model equality modulo expression whitespace, byte stability) is checked on the implementation for every accepted document.",
          "Not mechanised: parse(lex(render d)) = d for canonical renderings (observed on every run). ANTLR lexer/parser semantics and protojson are modelled (assumptions listed in Model/Lexer.v, Parser.v, Transform.v), not verified."),
  "C02": ("Theorems in Properties/C02.v about Model/Printer.v (the transcription of jsontodsl.go): the printer succeeds exactly on expressible rewrites, and (lossless) the text it writes is the canonical rendering of a grammatical parse tree whose denotation — also through the listener's rewrite stack — is the input rewrite up to [normalize] (direct assignment hoisted, one-operand operators collapsed) with exactly the relation's type restrictions; the Coq specification itself (carriable/expressible/normalize) is evaluated by the extracted model on every relation and compared with the implementation's re-parsed output; correspondence of the printer model with both printer paths byte for byte, "
@@ -33,17 +33,17 @@ P = {
          "Syntax errors inside files are compared as opaque entries."),
  "C08": ("Theorems in Properties/C08.v (panic-freedom of the modelled control flow: printer, listener, ParseDSL, both graph stages, fga.mod, and the module merge on parser-delivered files); PANIC and TIMEOUT are observables of every harness call; mutation fuzzing of the corpus, degenerate protobuf models, damaged module sets and manifests; scaled inputs timed.",
          "Partial by nature: a Gallina model cannot exhibit a Go panic it does not name nor running time; the quadratic bound is measured only. Known finding K-C08-formfeed."),
- "C09": ("Theorems in Properties/C09.v about the parser and listener models; every document of a catalogue of 13 structural violations injected at random sites of generated valid documents must be rejected by the implementation and by the model alike.",
+ "C09": ("Theorems in Properties/C09.v about the parser and listener models, including from the text with no hypothesis left: whenever ParseDSL accepts a document the returned model is the denotation of a grammatical parse tree in which nothing is declared twice (lexer tokens are non-empty, the parser's name tokens are tokens of its input); every document of a catalogue of 13 structural violations injected at random sites of generated valid documents must be rejected by the implementation and by the model alike.",
          "ANTLR semantics assumed as in C03."),
  "C10": ("Theorems in Properties/C10.v about Model/WGraph.wbuild (one node per label, one operator node per operator occurrence, computed-edge rule, totality, the built graph is unweighted with every edge filed under its source); the built graph of the implementation is compared with the extracted model (nodes, ordered edges, kinds, labels, conditions) and decoded against the model by an independent structure check; input model unchanged.",
          "Operator node names are canonicalised structurally (ULIDs are random)."),
  "C11": ("Same model as C04 (wildcard propagation transcribed); theorems in Properties/C11.v: on graphs without cycles, for every start order, the list of a node holds exactly the public types whose wildcard node is reachable (inductive reachability), each edge carries its target's set, and no list has duplicates; the executable form (spec_wildcards) is compared with the implementation's lists per run; wildcard lists of every node and edge against reachability of T:* nodes in the built graph, per explicit start order.",
          "Known finding K-WG-cycles delimits the unproved cyclic part."),
  "C12": ("Model/Merge.merge takes no iteration-order argument (after repair F5); theorems in Properties/C12.v: conflict-freedom is invariant under permutation of the files, hence permuting the list never changes whether the merge succeeds (for every list); each list merged repeatedly in one process, all permutations of small lists, correspondence per permutation.",
-         "Not proved: that a successful merge of a permuted list returns the same types up to order (observed per run). Go map order is sampled by repetition."),
+         "The well-formedness of parser output is itself a theorem (every list of files with distinct names). Not proved: that a successful merge of a permuted list returns the same types up to order (observed per run). Go map order is sampled by repetition."),
  "C13": ("Frame theorems in Properties/C13.v; argument-after-call observables for the printer, both graph builders and the merge; the same batch of calls in two orders, after warm-up and from 16 goroutines compared result by result; one shared model from 8 goroutines, also under the Go race detector.",
          "Partial by nature: data races and ANTLR cache state are outside any Gallina model; the race detector run is supporting evidence."),
- "C14": ("Theorems in Properties/C14.v about the printer's sort (sortByModule is a total order on distinct names, so output is independent of input order); output bytes compared across repeated calls, permuted models, JSON with shuffled keys; comment stripping and re-parse of the source-information output.",
+ "C14": ("Theorems in Properties/C14.v about the printer's sort (sortByModule is a total order on distinct names, so output is independent of input order) and about the source-information comments: they never change the verdict, and the output with comments is the plain output decorated with ' # ...' segments before line breaks, so that cutting comments line by line gives the same lines, the pre-pass of ParseDSL sees the same text and both outputs parse to the same result (for every model whose module and file names contain no line break); output bytes compared across repeated calls, permuted models, JSON with shuffled keys; comment stripping and re-parse of the source-information output.",
          "Names without line breaks."),
  "C15": ("Theorems in Properties/C15.v about Model/ModFile.v (safe paths, verbatim, one error per entry); whole manifests through the real YAML parser, exhaustive over the property's alphabet to length 3/4, against the model on yaml.v3's node view and against an independent specification.",
          "yaml.v3 and net/url are external (QueryUnescape transcribed)."),
